@@ -702,6 +702,11 @@ def r12_15(chk):
 
 
 def run(chk):
+    # stop-codon trimming of a new-type collection rebuilds its store: the orientation coherence rule of C03 (R03.17)
+    # is what keeps 'terminal stops are trimmed as requested' true for a reverse complemented collection
+    from . import c03
+
+    c03.r03_17(chk)
     r12_15(chk)
     r12_14(chk)
     r12_13(chk)
